@@ -8,6 +8,10 @@
 (*   Functional  : every observation on the object equals the twin's             *)
 (*                 (a stale memoised value is a value of an EARLIER abstract      *)
 (*                 state and differs)                                             *)
+(*   NoStaleHit  : every cache HIT reported by the guarded lookup hook during the  *)
+(*                 observation returned what the undecorated method computes on   *)
+(*                 the current state (shadow re-evaluation; ev.stale lists the     *)
+(*                 lookups, nested ones included, where it did not)               *)
 EXTENDS Integers, Sequences, FiniteSets, TLC, Fx, Json, IOUtils
 
 \* ObjectSM's tables are used through an instance (Family/Depth are not needed here)
@@ -43,6 +47,7 @@ Next ==
                ELSE IF ev.exc # "" THEN Reject("Applicable", ev.m \o ":" \o ev.exc, l + 1)
                ELSE Adv(O!Apply(Rec.family, st, <<ev.m, ev.v>>))
           ELSE IF ev.abs # st THEN Reject("TwinBinding", "observe", l)
+               ELSE IF ev.stale # <<>> THEN Reject("NoStaleHit", JoinSet({ev.stale[k] : k \in 1..Len(ev.stale)}), l)
                ELSE LET bad == BadNames(ev) IN
                     IF bad # {} THEN Reject("Functional", JoinSet(bad), l) ELSE Adv(st)
 =============================================================================
